@@ -106,6 +106,11 @@ class PrefixDefinition(PintParsedStatement, definitions.PrefixDefinition):
 
             aliases = tuple(alias for alias in aliases if alias not in ("", "_"))
 
+        if not value.strip():
+            return common.DefinitionSyntaxError(
+                f"Prefix definition ('{name}') has no value"
+            )
+
         try:
             value = config.to_number(value)
         except definitions.NotNumeric as ex:
@@ -146,6 +151,11 @@ class UnitDefinition(PintParsedStatement, definitions.UnitDefinition):
             return None
 
         name, value, *aliases = (p.strip() for p in s.split("="))
+
+        if not value:
+            return common.DefinitionSyntaxError(
+                f"Unit definition ('{name}') has no value"
+            )
 
         defined_symbol = None
         if aliases:
